@@ -29,43 +29,42 @@ func Run(c *hx.Ctx) {
 	c.CoqModule("Corr.C12")
 	var in Probe
 	if c.ReplayInput(&in) {
-		oracle(c, []Probe{in}, "replay")
+		oracle(c, []Probe{in}, nil, "replay")
 		runCorr(c, 40)
 		return
 	}
 	// 1. corpus: minimized past failures (repaired defects must stay repaired)
-	var corpus []Probe
+	var probes []Probe
 	for _, raw := range c.CorpusInputs() {
 		var p Probe
 		if json.Unmarshal(raw, &p) == nil && len(p.Txs) > 0 {
-			corpus = append(corpus, p)
+			probes = append(probes, p)
 		}
 	}
-	oracle(c, corpus, "corpus")
 	// 2. known-finding witnesses, probed on every run
-	oracle(c, witnessProbes(newWorld()), "witness")
-	// 3. generated input
 	w := newWorld()
-	var gen []Probe
-	gen = append(gen, genPrograms(c, w, c.N(260, 4000))...)
-	gen = append(gen, genNative(c, w, c.N(700, 12000))...)
-	gen = append(gen, genEvm(c, w, c.N(60, 1200))...)
-	oracle(c, gen, "gen")
+	probes = append(probes, panicWitnesses(w)...)
+	// 3. generated input
+	probes = append(probes, genPrograms(c, w, c.N(260, 4000))...)
+	probes = append(probes, genNative(c, w, c.N(700, 12000))...)
+	probes = append(probes, genEvm(c, w, c.N(60, 1200))...)
+	oracle(c, probes, fatalWitnesses(w), "run")
 	// 4. correspondence cases for the guard model
 	runCorr(c, c.N(900, 9000))
 }
 
 // oracle runs the probes in child processes and reports every execution that did not end with a
 // result or an error.
-func oracle(c *hx.Ctx, probes []Probe, origin string) {
-	if len(probes) == 0 {
+func oracle(c *hx.Ctx, probes, fatal []Probe, origin string) {
+	if len(probes)+len(fatal) == 0 {
 		return
 	}
 	t0 := time.Now()
-	res := runInChildren(filepath.Join(c.OutDir, "c12-"+origin), probes, 10*time.Minute)
-	for i, r := range res {
-		p := probes[i]
-		c.Count("probe:" + origin)
+	res, fres := runParallel(filepath.Join(c.OutDir, "c12-"+origin), probes, fatal, parallelChildren, 10*time.Minute)
+	all := append(append([]Probe{}, probes...), fatal...)
+	for i, r := range append(res, fres...) {
+		p := all[i]
+		c.Count("probe:" + originOf(p, origin))
 		c.Count("probe-kind:" + kindOf(p))
 		switch {
 		case r.Crashed:
@@ -93,11 +92,24 @@ func oracle(c *hx.Ctx, probes []Probe, origin string) {
 				c.Count("slow:>5s")
 			}
 			if o.State == "ok" || o.State == "fail" {
-				c.Nontrivial(fmt.Sprintf("%s|%s", origin, p.Name))
+				c.Nontrivial(p.Name)
 			}
 		}
 	}
-	c.Note(fmt.Sprintf("oracle %s: %d probes in %s", origin, len(probes), time.Since(t0).Round(time.Millisecond)))
+	c.Note(fmt.Sprintf("oracle %s: %d probes in %d parallel children, %s", origin, len(all), parallelChildren, time.Since(t0).Round(time.Millisecond)))
+}
+
+const parallelChildren = 6
+
+func originOf(p Probe, dflt string) string {
+	switch kindOf(p) {
+	case "corpus", "witness":
+		return kindOf(p)
+	}
+	if dflt == "replay" {
+		return dflt
+	}
+	return "generated"
 }
 
 func kindOf(p Probe) string {
@@ -119,8 +131,11 @@ func crashClass(p Probe, how, detail string) string {
 			site = site[:j]
 		}
 	}
-	if how == "fatal" && strings.Contains(detail, "stack overflow") && strings.Contains(site, "uildParamToNative") {
+	if how == "fatal" && strings.Contains(detail, "stack overflow") && strings.Contains(detail, "uildParamToNative") {
 		return "crash:cycle-non-first-element:Native.Invoke"
 	}
-	return "crash:" + how + ":" + kindOf(p) + ":" + site
+	if site == "" {
+		site = kindOf(p)
+	}
+	return "crash:" + how + ":" + site
 }
